@@ -393,6 +393,42 @@ func runC19(c *an.Ctx) {
 			}
 		}
 		c.Check(okR, "C19.d", "recent-shape", "isRecent is time.Since(header.Time().Add(threshold)) <= 0", isRecent, nil, "", nil)
+		// an unset (zero) recency threshold means "three block times", whatever the order and number of
+		// the options that set block time and threshold: the default is taken where the threshold is
+		// used (isRecent), or once in NewSyncer after every option was applied
+		okDefault, where := false, ""
+		an.Instrs(isRecent, func(in ssa.Instruction) {
+			call, isCall := in.(*ssa.Call)
+			if !isCall || an.StaticFullName(&call.Call) != "(time.Time).Add" || len(call.Call.Args) != 2 {
+				return
+			}
+			ph, isPhi := call.Call.Args[1].(*ssa.Phi)
+			if !isPhi {
+				return
+			}
+			for i, e := range ph.Edges {
+				ef := rf.EdgeFacts(ph.Block().Preds[i], ph.Block())
+				et := rt.Of(e)
+				if strings.Contains(et, "p1") && et != "p1" {
+					for _, f := range ef {
+						if f.Op == "EQ" && f.Pos && ((f.A == "0" && f.B == "p2") || (f.A == "p2" && f.B == "0")) {
+							okDefault, where = true, "in isRecent"
+						}
+					}
+				}
+			}
+		})
+		if newSyncer := p.Func("sync", "NewSyncer"); !okDefault && newSyncer != nil {
+			nt := c.T(newSyncer)
+			an.Instrs(newSyncer, func(in ssa.Instruction) {
+				if st, isSt := in.(*ssa.Store); isSt {
+					if fa, isFA := st.Addr.(*ssa.FieldAddr); isFA && isFieldOf(fa, nil, "recencyThreshold") && strings.Contains(nt.Of(st.Val), "blockTime") {
+						okDefault, where = true, "in NewSyncer"
+					}
+				}
+			})
+		}
+		c.Check(okDefault, "C19.d", "recency-default-at-use", "a zero recency threshold is replaced by three block times where it is used (or once after all options were applied), not inside one of the options", isRecent, nil, where, nil)
 	}
 }
 
